@@ -78,6 +78,9 @@ def gen(tier, rng):
     r = rng.fork("node")
     yield nodegen.c10_script(r, "node-router", 3, "router", "tun", 60 if thorough else 25)
     yield nodegen.c10_script(r, "node-switch", 3, "switch", "tun", 60 if thorough else 25)
+    # the default mode: a router on tun devices (claims only, nothing is learned), a switch on tap devices
+    yield nodegen.c10_script(r, "node-normal-tun", 3, "normal", "tun", 40 if thorough else 20)
+    yield nodegen.c10_script(r, "node-normal-tap", 3, "normal", "tap", 40 if thorough else 20)
     yield nodegen.c10_script(r, "node-hub", 3, "hub", "tap", 60 if thorough else 25)
     # "for IPv4, IPv6 and MAC ranges alike": claims of every family in the nodes' configuration, nested and overlapping
     yield nodegen.families_script(r, "node-families", 8 if thorough else 4)
